@@ -19,12 +19,12 @@ type TestProg struct {
 }
 
 type c01Case struct {
-	Cfgs     []CfgSpec   `json:"cfgs"`
-	Initial  [][]Entry   `json:"initial"` // per cfg: pre-existing well-formed content (nil = file absent)
-	Tests    []TestProg  `json:"tests"`
-	Run2Mode string      `json:"run2_mode"`  // default | update_false | ci | clean
-	Run2Perm []int       `json:"run2_order"` // order of tests in run 2
-	Record   string      `json:"record"`     // env | option : how updating is enabled in run 1
+	Cfgs     []CfgSpec  `json:"cfgs"`
+	Initial  [][]Entry  `json:"initial"` // per cfg: pre-existing well-formed content (nil = file absent)
+	Tests    []TestProg `json:"tests"`
+	Run2Mode string     `json:"run2_mode"`  // default | update_false | ci | clean
+	Run2Perm []int      `json:"run2_order"` // order of tests in run 2
+	Record   string     `json:"record"`     // env | option : how updating is enabled in run 1
 }
 
 // genMultiCall draws a multi-entry call (MatchSnapshot / MatchJSON / MatchYAML) for config index cfg.
